@@ -53,6 +53,9 @@ def check(run: Run) -> None:
     run.rule("R08.7", "severity is honoured: consumers that turn Validator.validate() output into a blocking status look at severity (a WARN policy must not make a document INVALID)", 4)
     run.rule("R08.8", "ENUM shape: exact membership accepts first; otherwise candidates are the allowed values that start with the value; 0 candidates and >1 candidates reject (E005 / E006); exactly one accepts", 4)
 
+    run.rule("R08.9", "TYPE by value kind: the table TypeConstraint.evaluate tests the value against maps STRING -> str, NUMBER -> int|float, BOOLEAN -> bool, LIST -> list and nothing else; a kind that is not in the table is rejected; the accepting return is reached only past the false edge of `not isinstance(value, <table entry>)`", 5)
+    run.rule("R08.10", "DATE / ISO8601 are decided by a calendar parse: every accepting return of DateConstraint.evaluate lies past a shape test whose language is exactly dddd-dd-dd and past a completed calendar parse (fromisoformat / strptime) of the same text whose ValueError rejects; ISO8601 likewise without the shape test", 4)
+    run.rule("R08.11", "REGEX matches from the start of the value: the pattern is compiled without flags, applied with match / fullmatch (never search), to str(value), and a failed match reaches only the rejecting return", 3)
     chain = cm.func("ConstraintChain.evaluate")
     _chain_shape(run, cm, chain)
     _members_pure(run, res, cm)
@@ -62,6 +65,9 @@ def check(run: Run) -> None:
     _document_level(run, vm)
     _severity(run, res)
     _enum_shape(run, cm)
+    _type_table(run, cm)
+    _calendar_gates(run, cm)
+    _regex_member(run, cm)
 
 
 # ---------------------------------------------------------------- R08.1
@@ -827,6 +833,282 @@ def _enum_shape(run: Run, cm) -> None:
         run.instance("R08.8", cm.loc(rn.ast), f"ENUM: {what}", ok=ok)
         if not ok:
             run.violation("R08.8", cm, fi.qualname, rn.ast, f"ENUM {what}: documented semantics are unique prefix accepts, no candidate E005, several candidates E006")
+
+
+_KIND_TYPES = {"STRING": {"str"}, "NUMBER": {"int", "float"}, "BOOLEAN": {"bool"}, "LIST": {"list"}}
+
+
+def _dict_rows(d: ast.Dict) -> dict[str, set[str]] | None:
+    """{"KIND": T | (T1, T2) | (T | (T1, T2), <flags...>)} -> kind -> set of type names; None when a row is not readable"""
+    rows: dict[str, set[str]] = {}
+    for k, v in zip(d.keys, d.values):
+        if not (isinstance(k, ast.Constant) and isinstance(k.value, str)):
+            return None
+
+        def types(e: ast.AST) -> set[str] | None:
+            if isinstance(e, ast.Name):
+                return {e.id}
+            if isinstance(e, ast.Tuple) and e.elts and all(isinstance(x, ast.Name) and x.id in ("str", "int", "float", "bool", "list", "dict", "tuple", "bytes", "set", "frozenset", "complex", "object") for x in e.elts):
+                return {x.id for x in e.elts}  # type: ignore[attr-defined]
+            if isinstance(e, ast.BinOp) and isinstance(e.op, ast.BitOr):
+                a, b = types(e.left), types(e.right)
+                return None if a is None or b is None else a | b
+            return None
+
+        t = types(v)
+        if t is None and isinstance(v, (ast.Tuple, ast.Call)):
+            # a row record: the first element / argument carries the type(s), the rest are flags
+            first = (v.elts if isinstance(v, ast.Tuple) else v.args)[:1]
+            t = types(first[0]) if first else None
+        if t is None:
+            return None
+        rows[k.value] = t
+    return rows
+
+
+def _type_table(run: Run, cm) -> None:
+    fi = cm.func("TypeConstraint.evaluate")
+    cfg = CFG(fi.node)
+    tables: list[tuple[ast.AST, dict[str, set[str]]]] = []
+    seen_names: set[str] = set()
+    for n in walk_no_nested(fi.node):
+        d = None
+        if isinstance(n, (ast.Assign, ast.AnnAssign)) and isinstance(n.value, ast.Dict):
+            d = n.value
+        elif isinstance(n, ast.Name) and isinstance(n.ctx, ast.Load) and n.id not in seen_names and cm.has_const(n.id) and isinstance(cm.const_node(n.id), ast.Dict):
+            seen_names.add(n.id)
+            d = cm.const_node(n.id)
+        elif isinstance(n, ast.Attribute) and isinstance(n.value, ast.Name) and n.value.id in ("self", "cls", "TypeConstraint") and n.attr not in seen_names:
+            cls = next((c for c in cm.tree.body if isinstance(c, ast.ClassDef) and c.name == "TypeConstraint"), None)
+            for st in (cls.body if cls else []):
+                if isinstance(st, (ast.Assign, ast.AnnAssign)) and isinstance(st.value, ast.Dict) and any(isinstance(t, ast.Name) and t.id == n.attr for t in (st.targets if isinstance(st, ast.Assign) else [st.target])):
+                    seen_names.add(n.attr)
+                    d = st.value
+        if d is not None:
+            rows = _dict_rows(d)
+            if rows is not None and set(rows) & set(_KIND_TYPES):
+                tables.append((d, rows))
+    if len(tables) != 1:
+        raise AnalysisError(f"TypeConstraint.evaluate: {len(tables)} kind -> type table(s) found (a dict display with STRING/NUMBER/BOOLEAN/LIST keys, local, module-level or class-level); TYPE by value kind is not decided in this form")
+    d, rows = tables[0]
+    for kind in sorted(set(rows) | set(_KIND_TYPES)):
+        want, got = _KIND_TYPES.get(kind), rows.get(kind)
+        ok = want == got
+        run.instance("R08.9", cm.loc(d), f"TYPE({kind}) accepts instances of {sorted(got) if got else 'nothing (no row)'}", ok=ok)
+        if not ok:
+            run.violation("R08.9", cm, fi.qualname, f"TYPE table row {kind}", f"TYPE({kind}) tests the value against {sorted(got) if got else 'no row'}; the documented value kind is {sorted(want) if want else 'not a documented kind (STRING, NUMBER, BOOLEAN, LIST)'}")
+    # an unknown kind rejects; acceptance lies past a failed `not isinstance(value, <entry>)`
+    accepts = [n for n in cfg.nodes if isinstance(n.ast, ast.Return) and _result_valid(n.ast.value) is True]
+    if not accepts:
+        raise AnalysisError("TypeConstraint.evaluate: no accepting return found")
+    pvalue = fi.node.args.args[1].arg  # type: ignore[attr-defined]
+    for a in accepts:
+        conds = atomic_conditions(cfg, a.id)
+        inst = False
+        for t, val in conds:
+            neg = isinstance(t, ast.UnaryOp) and isinstance(t.op, ast.Not)
+            core = t.operand if neg else t  # type: ignore[attr-defined]
+            if isinstance(core, ast.Call) and isinstance(core.func, ast.Name) and core.func.id == "isinstance" and len(core.args) == 2 and is_name(core.args[0], pvalue) and (val != neg):
+                src = ast.unparse(core.args[1])
+                # the second argument comes from the table (a local bound from <table>.get(...) / <table>[...]) - not a literal type
+                if not (isinstance(core.args[1], ast.Name) and core.args[1].id in ("str", "int", "float", "bool", "list")) and not isinstance(core.args[1], ast.Tuple):
+                    inst = True
+        run.instance("R08.9", cm.loc(a.ast), "TYPE accepts only where isinstance(value, <table entry>) holds", ok=inst)
+        if not inst:
+            run.violation("R08.9", cm, fi.qualname, a.ast, "an accepting return of TYPE is reachable without isinstance(value, <the table entry of the expected kind>) having held")
+        nonnull = False
+        for t, val in conds:
+            if isinstance(t, ast.Compare) and len(t.ops) == 1 and isinstance(t.ops[0], (ast.Is, ast.IsNot)) and isinstance(t.comparators[0], ast.Constant) and t.comparators[0].value is None and (val == isinstance(t.ops[0], ast.IsNot)) and isinstance(t.left, ast.Name):
+                # the tested local is what the table lookup gave, and a missing row gives None (no default other than None)
+                defs = [x.value for x in walk_no_nested(fi.node) if isinstance(x, (ast.Assign, ast.AnnAssign)) and x.value is not None and any(is_name(tg, t.left.id) for tg in (x.targets if isinstance(x, ast.Assign) else [x.target]))]
+                if defs and all(isinstance(dv, ast.Call) and isinstance(dv.func, ast.Attribute) and dv.func.attr == "get" and (len(dv.args) == 1 or (len(dv.args) == 2 and isinstance(dv.args[1], ast.Constant) and dv.args[1].value is None)) and not dv.keywords for dv in defs):
+                    nonnull = True
+            if isinstance(t, ast.Compare) and len(t.ops) == 1 and isinstance(t.ops[0], (ast.In, ast.NotIn)) and (val == isinstance(t.ops[0], ast.In)) and "expected_type" in ast.unparse(t.left):
+                nonnull = True
+        run.instance("R08.9", cm.loc(a.ast), "TYPE with a kind that has no row does not accept", ok=nonnull)
+        if not nonnull:
+            run.violation("R08.9", cm, fi.qualname, a.ast, "an accepting return of TYPE is reachable when the expected kind has no table row (unknown kinds must be rejected)")
+
+
+def _call_truth(t: ast.AST, val: bool) -> tuple[ast.Call, bool] | None:
+    """(call, did it return something truthy) for the test forms `C`, `not C`, `C is None`, `C is not None`, `bool(C)`"""
+    while isinstance(t, ast.UnaryOp) and isinstance(t.op, ast.Not):
+        t, val = t.operand, not val
+    if isinstance(t, ast.Compare) and len(t.ops) == 1 and isinstance(t.ops[0], (ast.Is, ast.IsNot)) and isinstance(t.comparators[0], ast.Constant) and t.comparators[0].value is None:
+        val = val if isinstance(t.ops[0], ast.IsNot) else not val
+        t = t.left
+    if isinstance(t, ast.Call) and isinstance(t.func, ast.Name) and t.func.id == "bool" and len(t.args) == 1:
+        t = t.args[0]
+    return (t, val) if isinstance(t, ast.Call) else None
+
+
+def _text_of_value(fi: FuncInfo, e: ast.AST, pvalue: str) -> bool:
+    """is `e` the text of the value parameter: str(value), a local bound once from it, or a .replace/.strip-free copy"""
+    if isinstance(e, ast.Call) and isinstance(e.func, ast.Name) and e.func.id == "str" and len(e.args) == 1 and is_name(e.args[0], pvalue):
+        return True
+    if isinstance(e, ast.Name):
+        defs = [a.value for a in walk_no_nested(fi.node) if isinstance(a, ast.Assign) and any(is_name(t, e.id) for t in a.targets)]
+        return len(defs) == 1 and _text_of_value(fi, defs[0], pvalue)
+    return False
+
+
+def _calendar_call(c: ast.AST) -> str | None:
+    if isinstance(c, ast.Call) and isinstance(c.func, ast.Attribute) and c.func.attr in ("fromisoformat", "strptime") and ast.unparse(c.func.value) in ("datetime", "date", "datetime.datetime", "datetime.date"):
+        return c.func.attr
+    return None
+
+
+def _shape_language(run: Run, cm, call: ast.Call) -> tuple[str, str] | None:
+    """(method, pattern text) of re.match/fullmatch(<const pattern>, x) or <module regex>.match/fullmatch(x)"""
+    f = call.func
+    if isinstance(f, ast.Attribute) and f.attr in ("match", "fullmatch", "search"):
+        if ast.unparse(f.value) == "re" and call.args:
+            pat = run.project.try_fold(cm, call.args[0])
+            return (f.attr, pat) if isinstance(pat, str) else None
+        if isinstance(f.value, ast.Name) and cm.has_const(f.value.id):
+            v = cm.const_node(f.value.id)
+            if isinstance(v, ast.Call) and ast.unparse(v.func) == "re.compile" and len(v.args) == 1 and isinstance(v.args[0], ast.Constant) and isinstance(v.args[0].value, str):
+                return (f.attr, v.args[0].value)
+    return None
+
+
+def _calendar_gates(run: Run, cm) -> None:
+    from .. import rx
+
+    A = rx.Alphabet()
+
+    def lang(method: str, pat: str) -> "rx.Sim":
+        b = rx.Builder(A)
+        fr = b.regex(pat)
+        if method == "match":
+            fr = b.seq(fr, b.any_star())
+        return rx.Sim(b.finish(fr), A)
+
+    ref = lang("fullmatch", r"\d{4}-\d{2}-\d{2}")  # upper bound: \d admits every Unicode decimal digit
+    ref_ascii = lang("fullmatch", r"[0-9]{4}-[0-9]{2}-[0-9]{2}")  # lower bound
+    for cls, shape_needed in (("DateConstraint", True), ("Iso8601Constraint", False)):
+        fi = cm.func(f"{cls}.evaluate")
+        cfg = CFG(fi.node)
+        pvalue = fi.node.args.args[1].arg  # type: ignore[attr-defined]
+        accepts = [n for n in cfg.nodes if isinstance(n.ast, ast.Return) and _result_valid(n.ast.value) is True]
+        if not accepts:
+            raise AnalysisError(f"{cls}.evaluate: no accepting return found")
+        # calendar parse nodes: a statement holding datetime/date.fromisoformat(<text of value>[.replace('Z', '+00:00')]) or strptime(<text>, '%Y-%m-%d')
+        parses: list[int] = []
+        for n in cfg.nodes:
+            if n.ast is None or n.kind not in ("stmt", "test"):
+                continue
+            for c in ast.walk(n.ast):
+                kind = _calendar_call(c)
+                if not kind or not c.args:  # type: ignore[attr-defined]
+                    continue
+                arg = c.args[0]  # type: ignore[attr-defined]
+                if isinstance(arg, ast.Call) and isinstance(arg.func, ast.Attribute) and arg.func.attr == "replace" and [ast.unparse(x) for x in arg.args] == ["'Z'", "'+00:00'"] and not shape_needed:
+                    arg = arg.func.value
+                if not _text_of_value(fi, arg, pvalue):
+                    continue
+                if kind == "strptime" and not (len(c.args) == 2 and isinstance(c.args[1], ast.Constant) and c.args[1].value == "%Y-%m-%d"):  # type: ignore[attr-defined]
+                    continue
+                parses.append(n.id)
+        for a in accepts:
+            # the parse completed: the accepting return is the parse statement itself or is dominated by it, and the parse's
+            # exception edge leads to a handler region that cannot reach this return
+            dom = [p for p in parses if p == a.id or cfg.dominated_by(a.id, p)]
+            ok = bool(dom)
+            if ok:
+                for p in dom:
+                    xs = [s for s, lab in cfg.succ[p] if lab == "x"]
+                    if not xs or any(_reaches(cfg, s, a.id) for s in xs):
+                        ok = False
+            run.instance("R08.10", cm.loc(a.ast), f"{cls}: acceptance lies past a completed calendar parse of the value's text (a failing parse cannot reach it)", ok=ok)
+            if not ok:
+                run.violation("R08.10", cm, fi.qualname, a.ast, f"{cls} accepts on a path on which no datetime/date.fromisoformat (or strptime '%Y-%m-%d') of the value's text has completed, or after the parse failed: 2024-02-30 / 2024-13-45 would be accepted as a {'date' if shape_needed else 'ISO8601 date/datetime'}")
+            if not shape_needed:
+                continue
+            shapes = []
+            for t, val in atomic_conditions(cfg, a.id):
+                ct = _call_truth(t, val)
+                if ct is not None and ct[1]:
+                    core = ct[0]
+                    sl = _shape_language(run, cm, core)
+                    if sl and core.args and _text_of_value(fi, core.args[-1], pvalue):
+                        shapes.append(sl)
+            ok = False
+            why = "no shape test `re.match/fullmatch(<constant pattern>, <text of value>)` holds on the way to the accepting return"
+            for method, pat in shapes:
+                if method == "search":
+                    why = f"the shape test uses re.search: text that merely contains a date passes"
+                    continue
+                sim = lang(method, pat)
+                w1 = rx.not_included_witness(sim, ref, A)
+                w2 = rx.not_included_witness(ref_ascii, sim, A)
+                if w1 is None and w2 is None:
+                    ok = True
+                    why = f"re.{method}({pat!r}) admits exactly dddd-dd-dd"
+                else:
+                    why = f"re.{method}({pat!r}) " + (f"also admits {w1!r}" if w1 is not None else f"does not admit {w2!r}")
+            run.instance("R08.10", cm.loc(a.ast), f"DATE: {why}", ok=ok)
+            if not ok:
+                run.violation("R08.10", cm, fi.qualname, "DATE shape test", f"DATE must accept YYYY-MM-DD only: {why} (datetime.fromisoformat alone also accepts 20240115, 2024-01-15T10:00 and week dates)")
+
+
+def _reaches(cfg: CFG, src: int, dst: int) -> bool:
+    seen = {src}
+    stack = [src]
+    while stack:
+        n = stack.pop()
+        if n == dst:
+            return True
+        for s, _lab in cfg.succ[n]:
+            if s not in seen:
+                seen.add(s)
+                stack.append(s)
+    return False
+
+
+def _regex_member(run: Run, cm) -> None:
+    fi = cm.func("RegexConstraint.evaluate")
+    cfg = CFG(fi.node)
+    pvalue = fi.node.args.args[1].arg  # type: ignore[attr-defined]
+    # how the pattern is compiled: every re.compile in the class takes the pattern alone
+    cls = next((c for c in cm.tree.body if isinstance(c, ast.ClassDef) and c.name == "RegexConstraint"), None)
+    if cls is None:
+        raise AnalysisError("RegexConstraint not found")
+    comps = [c for c in ast.walk(cls) if isinstance(c, ast.Call) and ast.unparse(c.func) in ("re.compile", "re.match", "re.fullmatch", "re.search")]
+    if not comps:
+        raise AnalysisError("RegexConstraint: no re.compile / re.match of the pattern found")
+    for c in comps:
+        nargs = 1 if ast.unparse(c.func) == "re.compile" else 2
+        ok = len(c.args) == nargs and not c.keywords and "self.pattern" in ast.unparse(c.args[0])
+        run.instance("R08.11", cm.loc(c), f"`{norm(c)}`: the schema's pattern, no flags", ok=ok)
+        if not ok:
+            run.violation("R08.11", cm, "RegexConstraint", c, "the REGEX pattern is compiled / applied with flags or is not the schema's pattern text: IGNORECASE / DOTALL / MULTILINE change which values a schema's pattern accepts")
+    uses = [c for c in walk_no_nested(fi.node) if isinstance(c, ast.Call) and isinstance(c.func, ast.Attribute) and c.func.attr in ("match", "fullmatch", "search", "findall", "finditer") and ("_compiled" in ast.unparse(c.func.value) or ast.unparse(c.func.value) == "re")]
+    if len(uses) != 1:
+        raise AnalysisError(f"RegexConstraint.evaluate: {len(uses)} applications of the pattern found (expected one)")
+    u = uses[0]
+    ok = u.func.attr in ("match", "fullmatch") and bool(u.args) and _text_of_value(fi, u.args[-1], pvalue)  # type: ignore[attr-defined]
+    run.instance("R08.11", cm.loc(u), f"`{norm(u)}` anchors the pattern at the start of str(value)", ok=ok)
+    if not ok:
+        run.violation("R08.11", cm, fi.qualname, u, "REGEX is applied with search / to something other than str(value): a pattern would accept any value that merely contains a match")
+    accepts = [n for n in cfg.nodes if isinstance(n.ast, ast.Return) and _result_valid(n.ast.value) is True]
+    for a in accepts:
+        conds = atomic_conditions(cfg, a.id)
+        good = False
+        for t, val in conds:
+            # the rejecting test `self._compiled and not <match>` is false here: either no compiled pattern, or the match held;
+            # accepted forms: the whole test `C and not M` false, or `not M` false / `M` true
+            ct = _call_truth(t, val)
+            if ct is not None and ct[0] is u and ct[1]:
+                good = True
+            elif isinstance(t, ast.BoolOp) and isinstance(t.op, ast.And) and val is False and len(t.values) == 2:
+                # `self._compiled and not M` false: no compiled pattern (cannot happen: __post_init__ raises) or M held
+                ct = _call_truth(t.values[1], False)
+                if ct is not None and ct[0] is u and ct[1] and "_compiled" in ast.unparse(t.values[0]) and not isinstance(t.values[0], (ast.Call, ast.Compare, ast.BoolOp)):
+                    good = True
+        run.instance("R08.11", cm.loc(a.ast), "REGEX accepts only where the match held", ok=good)
+        if not good:
+            run.violation("R08.11", cm, fi.qualname, a.ast, "an accepting return of REGEX is reachable although the pattern did not match")
 
 
 def _region(cfg: CFG, test: int) -> set[int]:
